@@ -23,7 +23,8 @@ pub fn gen_case(seed: u64, p: &Profile) -> Case {
     let n0 = if big { *[150usize, 201, 260, 450].choose(&mut rng).unwrap() } else { *counts.choose(&mut rng).unwrap() };
     let item_bytes = 1 + metric.header_size() + metric.vector_bytes(dims);
     let memories = |rng: &mut StdRng, n: usize| -> Option<usize> {
-        match rng.gen_range(0..8) {
+        match rng.gen_range(0..9) {
+            8 => Some([usize::MAX, usize::MAX - 1, 1 << 63, (1 << 63) + 1, usize::MAX / 2 + 1, 1 << 40][rng.gen_range(0..6)]),
             0 => Some(0),
             1 => Some(4096),
             2 => Some(3 * 4096),
